@@ -33,12 +33,14 @@ KINDS = {
         'comps': ['central'], 'amount': {'central': 'drug_amount'},
         'out1': ['central.drug_concentration'],
         'out2': ['central.drug_amount', 'central.drug_concentration'],
+        'out3': ['central.drug_amount'],
         'renP': ('global.elimination_rate', 'K'),
         'renO': ('central.drug_concentration', 'conc')},
     'lib2': {
         'comps': ['central'], 'amount': {'central': 'drug_amount'},
         'out1': ['global.tumour_volume'],
         'out2': ['central.drug_concentration', 'global.tumour_volume'],
+        'out3': ['central.drug_concentration'],
         'renP': ('global.kappa', 'K'),
         'renO': ('global.tumour_volume', 'vol')},
     'chain2': {
@@ -46,6 +48,7 @@ KINDS = {
         'amount': {'zeta': 'drug_zeta_amount', 'alpha': 'drug_alpha_amount'},
         'out1': ['alpha.drug_alpha_concentration'],
         'out2': ['global.total', 'zeta.drug_zeta_amount'],
+        'out3': ['zeta.drug_zeta_amount'],
         'renP': ('global.k_e', 'K'),
         'renO': ('alpha.drug_alpha_concentration', 'conc')},
 }
@@ -165,23 +168,39 @@ def apply_op(kind, m, mach, op, others, viol, hist_label):
             m.set_administration(comp, amount_var=K['amount'][comp], direct=direct)
             mach.adm = {'compartment': comp, 'direct': direct}
             mach.sens = False
+            if mach.ren_o:
+                # (whether a route change keeps user-given output names is not
+                # documented: not compared from here on)
+                mach.names_unknown = True
         elif op == 'reg1':
             m.set_dosing_regimen(**REG1)
             mach.reg = REG1_EVENTS
         elif op == 'reg2':
             m.set_dosing_regimen(protocol(REG2_EVENTS))
             mach.reg = REG2_EVENTS
-        elif op in ('out1', 'out2'):
+        elif op in ('out1', 'out2', 'out3'):
             m.set_outputs(list(K[op]))
+            # a user-given output name survives only while the output stays selected
+            mach.ren_o = mach.ren_o and K['renO'][0] in K[op] and (
+                mach.outs is None or K['renO'][0] in mach.outs)
             mach.outs = list(K[op])
             mach.sens = False
         elif op == 'renP':
             m.set_parameter_names({K['renP'][0]: K['renP'][1]})
         elif op == 'renO':
             m.set_output_names({K['renO'][0]: K['renO'][1]})
+            cur = mach.outs if mach.outs is not None else \
+                to_myokit_outputs(kind, m.outputs())
+            mach.ren_o = mach.ren_o or K['renO'][0] in cur
         elif op == 'sensOn':
             m.enable_sensitivities(True)
             mach.sens = True
+            mach.sens_subset = False
+        elif op == 'sensSub':
+            # sensitivities for the first two parameters only
+            m.enable_sensitivities(True, m.parameters()[:2])
+            mach.sens = True
+            mach.sens_subset = True
         elif op == 'sensOff':
             m.enable_sensitivities(False)
             mach.sens = False
@@ -273,6 +292,18 @@ def w_history(case):
            'outputs': to_myokit_outputs(kind, obs['outputs']), 'sens': obs['sens']}
     exp = {'adm': mach.adm, 'reg': None if mach.reg is None else sorted(mach.reg),
            'outputs': mach.outs, 'sens': mach.sens}
+    # displayed output names: the user-given name exactly while the machine says so
+    K_ = KINDS[kind]
+    if mach.outs is not None and not getattr(mach, 'names_unknown', False):
+        want = [K_['renO'][1] if (mach.ren_o and o == K_['renO'][0]) else o
+                for o in mach.outs]
+        if list(obs['outputs']) != want:
+            viol.append({'sub': 'field_output_names', 'message': 'displayed output '
+                         'names are not those of the net configuration (a name given '
+                         'to an output lasts while the output stays selected)',
+                         'history': lab, 'expected': want,
+                         'observed': list(obs['outputs']),
+                         'behaviour': 'field_output_names'})
     for k in exp:
         a, b = rep[k], exp[k]
         same = (a == b)
@@ -298,6 +329,10 @@ def w_history(case):
     else:
         try:
             f = fresh_from_reports(kind, obs)
+            if obs['sens'] and getattr(mach, 'sens_subset', False) and mach.sens:
+                # (the subset of sensitivities is not reported by the model; the
+                # reference machine knows what was requested last)
+                f.enable_sensitivities(True, f.parameters()[:2])
             fo = observe(f)
         except Exception as e:
             fo = None
@@ -327,7 +362,8 @@ def w_history(case):
                          'observed': strip(now),
                          'behaviour': 'copy_indep'})
     state = key_of([kind, strip(obs_key(obs)), mach.adm, mach.reg, mach.outs,
-                    mach.sens])
+                    mach.sens, mach.ren_o, getattr(mach, 'sens_subset', False),
+                    getattr(mach, 'names_unknown', False)])
     return {'state': state, 'transitions': len(history) + 4,
             'outcome': state, 'violations': viol}
 
@@ -585,8 +621,8 @@ def make_red_search(kind, depth, tail=1):
 
 
 def _ops(kind):
-    ops = ['admD', 'admI', 'reg1', 'reg2', 'out1', 'out2', 'renP', 'renO',
-           'sensOn', 'sensOff', 'sim', 'copyC', 'copyO']
+    ops = ['admD', 'admI', 'reg1', 'reg2', 'out1', 'out2', 'out3', 'renP', 'renO',
+           'sensOn', 'sensSub', 'sensOff', 'sim', 'copyC', 'copyO']
     if kind == 'chain2':
         ops.insert(2, 'admD2')
     return ops
@@ -609,17 +645,42 @@ def make_search(kind, depth, seeds, tail=1):
 for _k in KINDS:
     WORKERS['histories_' + _k] = w_history
     WORKERS['reduced_' + _k] = w_red_history
+    WORKERS['all_histories_' + _k] = w_history
+
+
+def make_exhaustive(kind, depth):
+    """Every history up to `depth` from the fresh model, WITHOUT merging states: the
+    canonical state cannot see a field that is only written (a lingering name, a
+    stale cache) until a later operation reads it, so the BFS may prune exactly the
+    history that would expose it."""
+    name = 'all_histories_' + kind
+    WORKERS[name] = w_history
+
+    def run(workers):
+        from ..core import engine
+        ops = _ops(kind)
+        cases = [[kind] + list(seq) for d in range(1, depth + 1)
+                 for seq in itertools.product(ops, repeat=d)]
+        part = engine.Part(name, cases, w_history,
+                           'every history of length <= %d over %d operations on %s, '
+                           'no state merging' % (depth, len(ops), kind))
+        st = engine.explore([part], workers)[name]
+        st['info'] = {'depth': depth, 'operations': len(ops)}
+        return part, st
+    return run
 
 
 def build(tier, seed):
     seeds = [[], ['admD', 'reg1'], ['admI', 'reg2'], ['admD', 'sensOn']]
     if tier == 'quick':
-        searches = [make_search('lib1', 3, seeds), make_red_search('lib1', 3)]
+        searches = [make_search('lib1', 3, seeds), make_red_search('lib1', 3),
+                    make_exhaustive('lib1', 3)]
     else:
         searches = [make_search('lib1', 10, seeds, 2),
                     make_search('chain2', 10, seeds),
                     make_search('lib2', 10, seeds[:2]),
-                    make_red_search('lib1', 5, 2), make_red_search('chain2', 4)]
+                    make_red_search('lib1', 5, 2), make_red_search('chain2', 4),
+                    make_exhaustive('lib1', 4), make_exhaustive('chain2', 3)]
     return {
         'parts': [],
         'searches': searches,
